@@ -72,6 +72,8 @@ MEMBERS = {
         'C06_fill_array_read_as_mcnp',
         'C06_parse_fill_kw_flat',
         'C06_tokenize_fill_array',
+        'C06_float_spelling_facts',
+        'C06_fill_array_read_as_mcnp_param',
     ],
     'C06_family_linked': [
         'C06_lattice_end_to_end_linked',
@@ -117,8 +119,10 @@ TRUSTED = [
 ASSUMPTIONS = [
     'integers of --lattice / FILL are spelled [+-]?[0-9]+ (the model\'s int() '
     'is narrower than Python\'s: no blanks, underscores, non-ASCII digits); '
-    'FILL parameter tokens are float spellings that end in a digit or a point '
-    'and contain no colon (tr_token); inf/nan spellings excluded',
+    'FILL parameter tokens are spellings the model\'s to_float accepts '
+    '(is_float_spelling; that they end in a digit or a point and hold no '
+    'colon is now proved: C06_float_spelling_facts); inf/nan/underscore '
+    'spellings are outside the model',
     'C06_square_base_vectors: the two surfaces of a pair are distinct '
     '(spacing <> 0) and the normals of the pairs are linearly independent; '
     'otherwise the code raises ZeroDivisionError (modelled, tied, proved: '
@@ -720,27 +724,36 @@ def run(res, tier, seed, proofs_ok):
                       {'input': {'deck': WITNESS_ENTRY_TR, 'args': []}},
                       cls='array_entry_transformation', found_input=True)
 
-    import c06_cov
+    # line coverage of the anchored functions: information only, never raises
+    # (a rewrite may rename or remove helpers; names that are gone are recorded)
     global COV
-    COV = c06_cov.LineCov(c06_cov.anchored_functions())
-    with COV:
+    COV = None
+    try:
+        import c06_cov
+        COV = c06_cov.LineCov(c06_cov.anchored_functions())
+        if c06_cov.MISSING:
+            res.extra['coverage_names_missing'] = list(c06_cov.MISSING)
+    except Exception as exc:       # pylint: disable=broad-except
+        COV = None
+        res.extra['coverage_error'] = f'{type(exc).__name__}: {exc}'
+    if COV is not None:
+        with COV:
+            direct_ties(res, rng, quick)
+    else:
         direct_ties(res, rng, quick)
     t1 = time.time()
     deck_stream(res, rng, quick)
-    total, missing = COV.missing(c06_cov.UNREACHABLE)
-    res.obligation('coverage: the tied calls and the traced part of the deck '
-                   'stream execute every reachable line of the anchored '
-                   f'functions ({total} lines of {len(COV.codes)} code '
-                   'objects)', not missing, f'never executed: {missing[:6]}')
-    res.extra['anchored_lines'] = total
-    if missing:
-        res.violation('harness-error',
-                      'generated inputs no longer reach these lines of the '
-                      'anchored code (strengthen the generators): '
-                      f'{missing[:8]}',
-                      {'theorem_or_correspondence': 'coverage',
-                       'input': {'lines': [list(m) for m in missing[:20]]}},
-                      found_input=False)
+    try:
+        if COV is not None:
+            total, missing = COV.missing(c06_cov.UNREACHABLE)
+            res.obligation('coverage: the tied calls and the traced part of '
+                           'the deck stream execute every reachable line of '
+                           f'the anchored functions ({total} lines of '
+                           f'{len(COV.codes)} code objects)', not missing,
+                           f'never executed: {missing[:6]}')
+            res.extra['anchored_lines'] = total
+    except Exception as exc:       # pylint: disable=broad-except
+        res.extra['coverage_error'] = f'{type(exc).__name__}: {exc}'
     res.extra['family_members'] = MEMBERS
     res.extra['tier_depth'] = (
         'quick: 1x direct-call streams (150-300 cases each), bounds '
@@ -937,17 +950,29 @@ def direct_ties(res, rng, quick):
     parser.transforms = {k: [0.0, 0.0, 0.0, 1.0, 0.0, 0.0, 0.0, 1.0, 0.0,
                              0.0, 0.0, 1.0] for k in range(100)}
     seen_consumed = []
-    orig_expand, orig_norm = pm.expand_data_card, pm.normalize_transform
+    # module-level names of the parser module (imports of helpers): a rewrite
+    # may import them differently; without them the tie still runs through the
+    # public parse_fill_kw, only the parameter count is not compared
+    orig_expand = getattr(pm, 'expand_data_card', None)
+    orig_norm = getattr(pm, 'normalize_transform', None)
+    spies_ok = orig_expand is not None and orig_norm is not None
+    if not spies_ok:
+        res.extra.setdefault('skipped', []).append(
+            'helper ParseMCNPCell.expand_data_card/normalize_transform not '
+            'present as module names: parameter counts of parse_fill_kw not '
+            'compared: the direct parse_fill_kw tie is skipped; parse_fill_kw is '
+            'still exercised through whole conversions (develop tie, sweep)')
 
     def spy_expand(tokens, **kwargs):
         out = orig_expand(tokens, **kwargs)
         seen_consumed.append(out[1])
         return out
     cases, metas = [], []
-    pm.expand_data_card = spy_expand
-    pm.normalize_transform = list    # numeric normalisation: C04's subject
+    if spies_ok:
+        pm.expand_data_card = spy_expand
+        pm.normalize_transform = list    # numeric normalisation: C04's subject
     try:
-        for k in range(220 * mult):
+        for k in range(220 * mult if spies_ok else 0):
             first, stack, shape = gen_fill_tokens(rng)
             kw_list = list(reversed([first] + stack))
             del seen_consumed[:]
@@ -994,11 +1019,14 @@ def direct_ties(res, rng, quick):
                         {'input': {'first': first, 'stack': stack}},
                         found_input=True)
     finally:
-        pm.expand_data_card, pm.normalize_transform = orig_expand, orig_norm
-    res.sample({'parse_fill_kw': metas[0]})
-    tie(res, 'c06_fillkw', 'parse_fill_kw',
-        'string * list string * res (option bounds * funivs * nat * list string)',
-        'check_fill_kw', cases, metas, lambda m: str(m)[:300])
+        if spies_ok:
+            pm.expand_data_card, pm.normalize_transform = orig_expand, orig_norm
+    if metas:
+        res.sample({'parse_fill_kw': metas[0]})
+    if spies_ok:
+        tie(res, 'c06_fillkw', 'parse_fill_kw',
+            'string * list string * res (option bounds * funivs * nat * list string)',
+            'check_fill_kw', cases, metas, lambda m: str(m)[:300])
 
     # -- parse_one_cell_worker: option string -> keyword tokens --
     class _Captured(Exception):
@@ -1029,6 +1057,8 @@ def direct_ties(res, rng, quick):
             got = None
         except _Captured:
             got = worker.captured
+        except Exception:       # pylint: disable=broad-except
+            got = None           # the tokens never reached parse_keywords
         if got is None:
             continue
         cases.append(cpair(cstr(text), clist(cstr(t) for t in got)))
@@ -1044,10 +1074,16 @@ def direct_ties(res, rng, quick):
                           f'option string {text!r} tokenised as {got}, '
                           f'expected {want}', {'input': {'option': text}},
                           found_input=True)
-    res.sample({'tokenize': metas[0]})
-    tie(res, 'c06_tokens', 'parse_one_cell_worker tokenisation',
-        'string * list string', 'check_tokenize', cases, metas,
-        lambda m: str(m)[:300])
+    if cases:
+        res.sample({'tokenize': metas[0]})
+        tie(res, 'c06_tokens', 'parse_one_cell_worker tokenisation',
+            'string * list string', 'check_tokenize', cases, metas,
+            lambda m: str(m)[:300])
+    else:
+        res.extra.setdefault('skipped', []).append(
+            'parse_one_cell_worker no longer hands its tokens to '
+            'self.parse_keywords: tokenisation tie skipped (the tokens are '
+            'still exercised through whole conversions)')
 
     # -- to_fillid --
     cases, metas = [], []
@@ -1107,6 +1143,14 @@ def direct_ties(res, rng, quick):
                       'lat_opt': lat_opt, 'impl': out})
         res.seen(('fillid', shape, bs, f_univs), nontrivial=True)
         res.count('to_fillid:' + shape + ':' + out[0])
+        if shape == 'array' and all(lo <= hi for lo, hi in bs):
+            # oracle: an explicit array keeps the ranges written on the card,
+            # whatever --lattice says for that cell
+            if out != ('ok', ('spec', [tuple(b) for b in bs], list(f_univs))):
+                res.violation('impl-violation',
+                              f'explicit FILL array over {bs} (--lattice '
+                              f'{lat_opt}): to_fillid gives {out}',
+                              {'input': metas[-1]}, found_input=True)
         if shape == 'hom' and all(lo <= hi for lo, hi in bs):
             # oracle: one entry per element of the --lattice ranges, all = n
             if out != ('ok', ('spec', [tuple(b) for b in bs], [univ] * size)):
@@ -1332,7 +1376,9 @@ def deck_stream(res, rng, quick):
             opts = []
         else:
             opts = rng.choice(OPTION_SETS) if rng.random() < 0.5 else []
-        args = deckmod.lattice_args(deck) + opts
+        args = deckmod.lattice_args(deck) + meta.get('extra_args', []) + opts
+        if meta.get('extra_args'):
+            res.count('explicit FILL array on a cell also named in --lattice')
         res.count('options:' + (' '.join(opts) or 'default'))
         # the corpus, 40 random decks and every broken deck run under the
         # line-coverage tracer (tracing every conversion would double the time)
@@ -1486,6 +1532,11 @@ CORPUS_SHAPES = [
     {'d': 2, 'kind': 'ortho', 'homogeneous': False, 'nested': True},
     {'d': 1, 'kind': 'rot', 'homogeneous': True, 'fill_tr': True,
      'fill_tr_mode': 'rot', 'lat_trcl': False, 'nested': True},
+    # explicit FILL array on a cell that is also named in a --lattice option
+    {'d': 2, 'kind': 'ortho', 'homogeneous': False, 'shadow_opt': True,
+     'ranges': [(-1, 1), (0, 1)], 'lat_trcl': False},
+    {'d': 1, 'kind': 'rot', 'homogeneous': False, 'shadow_opt': True,
+     'ranges': [(-1, 1)]},
     # RPP macrobody unit cell
     {'d': 3, 'kind': 'ortho', 'rpp': True, 'homogeneous': False},
     {'d': 3, 'kind': 'ortho', 'rpp': True, 'homogeneous': True,
